@@ -49,6 +49,7 @@ from malt.pyct import cfg
 from malt.pyct import error_utils
 from malt.pyct import errors
 from malt.pyct import inspect_utils
+from malt.pyct import parser
 from malt.pyct import qual_names
 from malt.pyct import transpiler
 from malt.pyct.static_analysis import activity
@@ -765,7 +766,10 @@ def to_code(entity, recursive=True, experimental_optional_features=None):
           entity,
           recursive=recursive,
           experimental_optional_features=experimental_optional_features))
-  return textwrap.dedent(source)
+  # Not textwrap.dedent: it also strips the indentation inside multi-line string
+  # literals (e.g. docstrings), so the text shown would differ from what was
+  # loaded.
+  return parser.dedent_block(source)
 
 
 _TRANSPILER = PyToPy()
